@@ -363,6 +363,13 @@ op_tine::next (scon &sc) const
   if (std::all_of (mst.m_file.begin (), mst.m_file.end (),
 		   [] (stack::uptr const &ptr) { return ptr == nullptr; }))
     {
+      // Only the first branch fetches the next stack.  The other
+      // branches report that they are done with the current one, so
+      // that the merge wraps around and every input stack is served
+      // to the branches in order.
+      if (m_branch_id != 0)
+	return nullptr;
+
       if (auto stk = m_merge.get_upstream ().next (sc))
 	for (auto &ptr: mst.m_file)
 	  ptr = std::make_unique <stack> (*stk);
